@@ -158,12 +158,14 @@ LITERALS = {
 }
 
 
-def literal_is_one_token(O, kind, R):
+def literal_is_one_token(O, kind, R, longest=None):
     """A source that consists of one integer literal of the given kind - prefix, then digits of the radix only, up to the
     stated length (well beyond what fits in 64 bits) - is lexed as exactly one token of that kind covering all of it: the
     lexer never splits an over-long literal into pieces that could each be accepted."""
     m = O.mir
     prefix, digits, mind, L = LITERALS[kind]
+    if longest:
+        L = longest
 
     def constrain(eng_, src):
         n = lexmodel.src_len(eng_, src)
